@@ -29,6 +29,9 @@ TEMPLATES = [
     "S + list(T)", "string(S * 1)", "reverse(S)", "sublist(S, 1)", "S[0]", "first(S)", "last(S)", "[S[i] for i in range(length(S))]", "map_list(S, fn(x) x + '!')" ,
     "filter(S, fn(x) length(x) > 2)", "reduce(S, fn(a, b) a + b)", "reduce(list(S), fn(a, b) a + b)", "find(S, 'fig')", "zip(S, T)", "enumerate(S)", "pairs(S)", "chunks(S, 2)",
     "unique(S + T)", "flatten([S, T])", "join(S, '-')", "count(S, 'fig')", "any(S, fn(x) x > 'm')", "grouped(S, key = fn(x) length(x))", "max(S, key = fn(x) length(x))",
+    # a map with non-string keys spread into a call: the values become positional arguments in ascending key order
+    "def h(r...) r...; h(...M3)", "def h3(a, b, c) [a, b, c]; h3(...M3)", "def h4(a) a; do h4(...M3) catch all 'too many' end", "def h5(a, r...) [a, r...]; h5(...M3)",
+    "[...M3]", "def h6(a, b = 'dflt', r...) [a, b]; h6(...M3, b = 'named')",
     "min(S, key = fn(x) length(x))", "max(S)", "min(M)", "sum(N)", "interval(1, 3) + N", "insert_at([0], 0, S)", "def l = list(S); delete_at(l, 0)", "remove(S, first(list(S))); string(S)",
 ]
 
@@ -98,9 +101,11 @@ def gen_programs(ctx, n):
         rng.shuffle(mix)
         def mk_header(order):
             si, ti, mi, ni, mx, m2 = order
+            m3 = [(3, "'c'"), (1, "'a'"), (2, "'b'")] if si is s_items else [(2, "'b'"), (3, "'c'"), (1, "'a'")]
             return (f"def S = {lit_set(si)}; def T = {lit_set(ti)}; "
                     f"def M = <<<{', '.join(lit(k) + ' => ' + str(v) for k, v in mi)}>>>; "
                     f"def M2 = <<<{', '.join(lit(k) + ' => ' + str(v) for k, v in m2)}>>>; "
+                    f"def M3 = <<<{', '.join(str(k) + ' => ' + v for k, v in m3)}>>>; "
                     f"def N = {lit_set(ni)}; def MIX = <<{', '.join(SPECIAL.get(x, None) or lit(x) for x in mx)}>>; "
                     "def while_result(q) do def l = list(q); def i = 0; def out = []; while i < length(l) do append(out, l[i]); i += 1 end; out end; ")
         m_pairs = [(k, i) for i, k in enumerate(m_items)]
